@@ -29,6 +29,9 @@ fn main() {
         "c19-child" => {
             verif_harness::props::c19::child_main(args.get(1).map(|s| s.as_str()).unwrap_or("{}"));
         }
+        "gen-corpus" => {
+            verif_harness::fuzz_entry::gen_corpus(&verif_dir.join("harness").join("fuzz").join("corpus"));
+        }
         "list" => {
             for id in props::all_ids() {
                 println!("{id}");
@@ -39,6 +42,29 @@ fn main() {
                 usage();
             }
             let Some(prop) = props::get(&args[1]) else { usage() };
+            // a saved libFuzzer input: <ID>-fuzz-<target>-<hash>.bin
+            if args[2].ends_with(".bin") {
+                let fname = std::path::Path::new(&args[2]).file_name().map(|s| s.to_string_lossy().to_string()).unwrap_or_default();
+                let target = verif_harness::fuzz_entry::targets().into_iter().map(|t| t.0).find(|t| fname.contains(&format!("-fuzz-{t}-")) || fname.contains(t));
+                let Some(target) = target else {
+                    eprintln!("cannot tell the fuzz target from the file name {fname}");
+                    std::process::exit(2);
+                };
+                match verif_harness::fuzzrun::replay_bin(target, std::path::Path::new(&args[2])) {
+                    Ok(Ok(_)) => println!("PASS property={} (saved input holds under target {target})", prop.id),
+                    Ok(Err(f)) => {
+                        println!("VIOLATION property={} replay={}", prop.id, args[2]);
+                        println!("  oracle={} sig={}", f.oracle, f.sig);
+                        println!("  {}", f.detail);
+                        std::process::exit(1);
+                    }
+                    Err(e) => {
+                        eprintln!("cannot replay: {e}");
+                        std::process::exit(2);
+                    }
+                }
+                return;
+            }
             let rc = RunCtx { tier: Tier::Quick, seed, workers: 1, verif_dir, known };
             match replay_file(&rc, &prop, &PathBuf::from(&args[2])) {
                 Ok(Ok(o)) => {
